@@ -95,6 +95,19 @@ def gen_pure(ctx):
         yield "%s 4 %s %d" % (rng.choice(["port", "eprt"]), hx(a), p)
 
 
+def gen_pure_locale(ctx):
+    """PORT / EPRT formatting (and the 227 / 229 parsers) in a process whose global C++ locale groups digits (VERIF_LOCALE=group)"""
+    rng = ctx["rng"]
+    for p in list(range(0, 65536, 97)) + [999, 1000, 1001, 9999, 10000, 38365, 65535]:
+        yield "port 4 %s %d" % (hx(b"127.0.0.1"), p)
+        yield "eprt 4 %s %d" % (hx(b"127.0.0.1"), p)
+        yield "epsv " + hx(b"229 ok (|||%d|)" % p)
+        yield "pasv " + hx(b"227 ok (127,0,0,1,%d,%d)" % (p // 256, p % 256))
+    for a in (b"::1", b"2001:db8::ff00:42:8329"):
+        for p in (0, 1000, 50000, 65535):
+            yield "eprt 6 %s %d" % (hx(a), p)
+    ctx["scopes"].append("PORT / EPRT / 227 / 229 for every 97th port and the 4/5-digit borders under a global locale that groups digits")
+
 from props.e2egen import *
 from props.e2egen import line as eline
 
@@ -121,6 +134,7 @@ def gen_e2e(ctx):
 PROP = {
     "id": "C06",
     "stages": [{"name": "pure", "target": "h_pure", "gen": gen_pure},
+               {"name": "pure-locale", "target": "h_pure", "gen": gen_pure_locale, "env": {"VERIF_LOCALE": "group"}},
                {"name": "client", "target": "h_client", "gen": gen_c06_client, "shard": 12},
                {"name": "e2e", "target": "h_e2e", "gen": gen_e2e, "shard": 4}],
     "trivial_tags": [],
